@@ -16,7 +16,7 @@ RULE = (
     "construction orders (reversed; interleaved with unrelated queries; each query built twice); the _name of every node of the logical and of the optimized plan and the sorted task keys "
     "(tasks shuffle; names only under disk, whose store token is random by design) must be identical to the origin's. (b) collision-freeness: an independent structural fingerprint "
     "S(e) = (class, S(operands) | content hash of literals) is computed for every node of every plan of the batch, of all single-site program variants (one literal / column / keyword / data cell "
-    "changed) and of all single-operand perturbations type(node)(*operands'); name(e1)==name(e2) <=> S(e1)==S(e2) must hold over all of them. "
+    "changed) and of all single-operand perturbations type(node)(*operands'); name(e1)==name(e2) <=> S(e1)==S(e2) must hold over all of them; a program variant over other data must rename the root (also for from_delayed sources with and without prefix=, which take part in (b) only). "
     "non-trivial = a pair of expressions of one class differing in exactly one operand; distinct by (class, operand position)"
 )
 ASSUMPTIONS = ["queries over user-created dask.delayed objects are excluded from cross-process comparison (delayed keys are random unless the user asks for pure=True)",
@@ -34,11 +34,25 @@ def _no_delayed(prog):
     return not any((t.get("layout") or {}).get("kind") == "from_delayed" for t in prog["tables"]) and not any(s["op"] == "cut" and "delayed" in s["args"].get("how", "") for s in prog["steps"])
 
 
+def delayed_source_cases(tier):
+    """sources built from user Delayed objects (their keys are random, so only the in-process collision part applies): with and without
+    an explicit name prefix, with and without divisions"""
+    S_ = templates.S
+    out = []
+    for lay in ({"kind": "from_delayed", "cuts": [1, 5, 2]}, {"kind": "from_delayed", "cuts": [1, 5, 2], "prefix": "src"}, {"kind": "from_delayed", "cuts": [3, 3, 2], "known": True, "prefix": "src"},
+                {"kind": "from_map", "cuts": [1, 5, 2]}):
+        t = templates.table("t0", templates.ROWS_A, layout=lay)
+        for steps in ([S_("v1", "cols", ["t0"], cols=["f", "k"])], [S_("v1", "col", ["t0"], col="i"), S_("v2", "reduce", ["v1"], how="sum", split_every=None)]):
+            out.append({"tables": [t], "steps": steps, "out": [steps[-1]["id"]], "config": {"shuffle": "tasks"}, "template": "delayed-source"})
+    return out
+
+
 def systematic(tier):
     cs = [c for c in templates.c01_cases(tier) + templates.sibling_cases(tier) if _no_delayed(c)]
     if tier == "quick":
         cs = cs[::12]
-    return [{"batch": cs[i : i + BATCH]} for i in range(0, len(cs), BATCH)]
+    ds = delayed_source_cases(tier)
+    return [{"batch": cs[i : i + BATCH]} for i in range(0, len(cs), BATCH)] + [{"batch": ds[i : i + BATCH], "only_part": "collisions"} for i in range(0, len(ds), BATCH)]
 
 
 def strategy(tier):
@@ -263,6 +277,12 @@ def check(case):
                         if hasattr(ev, "expr"):
                             exprs.append((f"p{pi}:variant:{kind}:{where}:{path}", ev.expr))
                             classes.append("variant:" + kind)
+                            root = dv[prog["out"][0]]
+                            # other data => another query: the root must get another name (expressions are singletons keyed by
+                            # their name, so a collision would hand back the ORIGINAL source and S() could not see the difference)
+                            if kind in ("cell", "rows-swapped") and hasattr(root, "expr") and ev.expr._name == root.expr._name:
+                                failures.append(Failure("name-collision", f"program {pi}: the same query over different data ({kind} of table {where} changed) has the same name {ev.expr._name!r}",
+                                                        extra={"bucket_hint": "data-variant", "program": prog}).record())
                     except Exception:
                         continue
         except Exception:
